@@ -63,24 +63,24 @@ def run(ctx):
 
     jobs = []
     # 1. exhaustive check of the round rules
-    mcs = [H.hc_params("off", "C28", maxtime=109), H.hc_params("hard", "C28", maxtime=108),
-           H.hc_params("gradual", "C28", maxtime=104, downafter=4, maxlevel=3),
+    mcs = [H.hc_params("off", "C28", maxtime=109), H.hc_params("hard", "C28", maxtime=106, downafter=4, cool=3),
+           H.hc_params("gradual", "C28", w=1, min=1, maxtime=104, downafter=4, maxlevel=3),
            H.hc_params("off", "C28", maxtime=108, downafter=4, sbm=0, healthsql="FALSE"), H.hc_params("off", "C28", maxtime=108, hasmaster="FALSE")]
     if thorough:
-        mcs = [H.hc_params("off", "C28", maxtime=116, syncs="Syncs"), H.hc_params("hard", "C28", maxtime=112),
-               H.hc_params("gradual", "C28", maxtime=105, downafter=4),
+        mcs = [H.hc_params("off", "C28", maxtime=116, syncs="Syncs"), H.hc_params("hard", "C28", maxtime=110),
+               H.hc_params("gradual", "C28", maxtime=104, downafter=4),
                H.hc_params("off", "C28", maxtime=112, downafter=4, sbm=0, healthsql="FALSE"), H.hc_params("off", "C28", maxtime=112, hasmaster="FALSE"),
                H.hc_params("hard", "C28", maxtime=108, downafter=4), H.hc_params("gradual", "C28", maxtime=104, downafter=4, maxlevel=3, healthsql="FALSE"),
                H.hc_params("gradual", "C28", maxtime=104, downafter=4, maxlevel=3, hasmaster="FALSE", sbm=0)]
     for p in mcs:
-        jobs.append(dict(module="HealthCheck", cfg_text=H.HC_MC % p, coverage=True, workers=4 if thorough else 2,
+        jobs.append(dict(module="HealthCheck", cfg_text=H.HC_MC % p, coverage=True, workers=4,
                          label="mc rounds policy=%(policy)s downafter=%(downafter)d sbm=%(sbm)d healthsql=%(healthsql)s hasmaster=%(hasmaster)s" % p))
     pc = H.hc_params("off", "C28", maxtime=109, extra="CONSTANT KnownCorner <- NoCorner")
     jobs.append(dict(module="HealthCheck", cfg_text=H.HC_MC % pc, allow_violation=True, label="mc rounds without the known-corner exception"))
     n_mc = len(jobs)
 
     # 2. generation: every history of a bounded length over the reduced alphabet (down-after of one and of two rounds) ...
-    bfs = [("off", 8, 3), ("off", 4, 3), ("gradual", 8, 3)] if not thorough else [("off", 8, 4), ("off", 4, 4), ("hard", 8, 4), ("gradual", 8, 4), ("gradual", 4, 4)]
+    bfs = [("off", 8, 3), ("off", 4, 3), ("hard", 8, 3), ("gradual", 4, 3)] if not thorough else [("off", 8, 4), ("off", 4, 4), ("hard", 8, 4), ("gradual", 8, 4), ("gradual", 4, 4)]
     for pol, da, ln in bfs:
         p = H.hc_params(pol, "C28", mode="bfs", len=ln, downafter=da, maxtime=10 ** 6)
         jobs.append(dict(module="HealthCheck_gen", cfg_text=H.HC_GEN % p, workers=1, emit=True,
